@@ -19,10 +19,29 @@ import (
 	"time"
 )
 
+type c09SHead struct {
+	Head struct {
+		Target   string `json:"target"`
+		Host     string `json:"host"`
+		Announce string `json:"announce"`
+	} `json:"head"`
+	Verdict string `json:"verdict"`
+}
+
+type c09RSeq struct {
+	Pre    []string `json:"pre"`
+	Fin    []string `json:"fin"`
+	Status string   `json:"status"`
+}
+
 type c09Vec struct {
-	Conts   [][]string `json:"conts"`
-	H       []string   `json:"h"`
-	Verdict struct {
+	RSeqs     []c09RSeq  `json:"rseqs"`
+	RConts    []string   `json:"rconts"`
+	SHeads    []c09SHead `json:"sheads"`
+	BodyConts []string   `json:"bodyconts"`
+	Conts     [][]string `json:"conts"`
+	H         []string   `json:"h"`
+	Verdict   struct {
 		V      string       `json:"v"`
 		Fields [][][]string `json:"fields"`
 	} `json:"verdict"`
@@ -235,6 +254,126 @@ func c09Live(s *Server, head, cont []byte, cuts []int, contSeparate bool) c09Out
 	return c09Outcome{Class: "reject"}
 }
 
+// c09Structured: request heads whose validity is decided by the request target / Host value,
+// with or without an announced body, served by a live Server and followed by nothing, a part
+// of the body or the whole body, in one read or with the head cut one byte before its end.
+// A head the reference rejects must be rejected at once in every case.
+func c09Structured(srv *Server, sheads []c09SHead, bodyconts []string, viol func(kind, key, detail string, c vfRec)) int {
+	evals := 0
+	for _, sh := range sheads {
+		target := map[string]string{"origin": "/s", "absolute": "http://h/s", "absolute-badhost": "http://[::1/s"}[sh.Head.Target]
+		host := map[string]string{"ok": "h", "unclosed-bracket": "[::1", "space": "a b", "bad-escape": "a%zzb"}[sh.Head.Host]
+		ann, body := "", "GET /n HTTP/1.1\r\nHost: h\r\n\r\n"
+		switch sh.Head.Announce {
+		case "cl":
+			ann, body = "Content-Length: 5\r\n", "hello"
+		case "chunked":
+			ann, body = "Transfer-Encoding: chunked\r\n", "5\r\nhello\r\n0\r\n\r\n"
+		}
+		if target == "" || host == "" {
+			vfInfra("c09: unknown structured head " + fmt.Sprint(sh))
+			return evals
+		}
+		head := []byte("POST " + target + " HTTP/1.1\r\nHost: " + host + "\r\n" + ann + "\r\n")
+		desc := fmt.Sprintf("target=%s,host=%s,body=%s", sh.Head.Target, sh.Head.Host, sh.Head.Announce)
+		for _, bc := range bodyconts {
+			var cont []byte
+			switch bc {
+			case "partial":
+				cont = []byte(body[:2])
+			case "whole":
+				cont = []byte(body)
+			}
+			for _, cuts := range [][]int{nil, {len(head) - 1}, {len(head) - 2, len(head) - 1}} {
+				for _, sep := range []bool{false, true} {
+					if sep && len(cont) == 0 {
+						continue
+					}
+					o := c09Live(srv, head, cont, cuts, sep)
+					evals++
+					cas := vfRec{"head": string(head), "continuation": string(cont), "head_cuts": cuts, "continuation_in_later_read": sep,
+						"reference_verdict": sh.Verdict, "outcome": o.String()}
+					switch {
+					case sh.Verdict == "reject" && o.Class == "waits":
+						viol("needmore", "needmore:server:structured:"+desc, fmt.Sprintf("server: head %q must be rejected on its own bytes, but the server asked for more input before answering (continuation %q, head cut at %v)",
+							head, cont, cuts), cas)
+					case sh.Verdict == "reject" && o.Class != "reject":
+						viol("verdict", "verdict:server:structured:"+desc, fmt.Sprintf("server: head %q must be rejected (invalid request target or Host), got %s", head, o), cas)
+					case sh.Verdict == "accept" && !sep && (bc == "whole" || sh.Head.Announce == "none") && o.Class != "accept":
+						viol("verdict", "verdict:server:structured:"+desc, fmt.Sprintf("server: valid head %q with its complete body was not served: %s", head, o), cas)
+					}
+				}
+			}
+		}
+	}
+	return evals
+}
+
+// c09Responses: whole responses read with Response.Read: interim heads, then a final head
+// (101 with or without an upgrade token in Connection, 200, 204), then a continuation. The
+// status returned, the bytes consumed and "no wait" must not depend on the continuation.
+func c09Responses(rseqs []c09RSeq, rconts []string, viol func(kind, key, detail string, c vfRec)) int {
+	evals := 0
+	reason := map[string]string{"100": "Continue", "103": "Early Hints", "101": "Switching Protocols", "200": "OK", "204": "No Content"}
+	for _, rs := range rseqs {
+		var msg []byte
+		for _, st := range rs.Pre {
+			msg = append(msg, "HTTP/1.1 "+st+" "+reason[st]+"\r\n"...)
+			if st == "103" {
+				msg = append(msg, "Link: </x>; rel=preload\r\n"...)
+			}
+			msg = append(msg, "\r\n"...)
+		}
+		st := rs.Fin[0]
+		msg = append(msg, "HTTP/1.1 "+st+" "+reason[st]+"\r\n"...)
+		switch rs.Fin[1] {
+		case "upgrade":
+			msg = append(msg, "Connection: Upgrade\r\nUpgrade: websocket\r\n"...)
+		case "keep-alive":
+			msg = append(msg, "Connection: keep-alive\r\n"...)
+		}
+		if st == "200" {
+			msg = append(msg, "Content-Length: 0\r\n"...)
+		}
+		msg = append(msg, "\r\n"...)
+		desc := fmt.Sprintf("interim=%v,final=%s,connection=%s", rs.Pre, st, rs.Fin[1])
+		for _, rc := range rconts {
+			var cont []byte
+			switch rc {
+			case "response":
+				cont = []byte("HTTP/1.1 200 OK\r\nContent-Length: 2\r\n\r\nhi")
+			case "garbage":
+				cont = []byte("\x81\x05zzzzz")
+			case "partial-head":
+				cont = []byte("HTTP/1.1 200 OK\r\nContent-Le")
+			}
+			for _, cuts := range [][]int{nil, {len(msg) - 1}} {
+				for _, sep := range []bool{false, true} {
+					if sep && len(cont) == 0 {
+						continue
+					}
+					r := &c09Reader{chunks: c09Chunks(msg, cont, cuts, sep), headLen: len(msg)}
+					br := bufio.NewReaderSize(r, 4096)
+					var resp Response
+					err := resp.Read(br)
+					evals++
+					consumed := r.given - br.Buffered()
+					cas := vfRec{"message": string(msg), "continuation": string(cont), "cuts": cuts, "continuation_in_later_read": sep,
+						"error": fmt.Sprint(err), "status": resp.StatusCode(), "consumed": consumed, "late_reads": r.late}
+					switch {
+					case r.late > 0:
+						viol("needmore", "needmore:Response.Read:"+desc, fmt.Sprintf("Response.Read: the response %q is complete, but more input was requested (continuation %q)", msg, cont), cas)
+					case err != nil || fmt.Sprint(resp.StatusCode()) != rs.Status || consumed != len(msg):
+						viol("cont-dep", "resp-seq:Response.Read:"+desc, fmt.Sprintf("Response.Read on %q followed by %q: error %v, status %d, %d bytes consumed; the response is the %s head ending at byte %d whatever follows",
+							msg, cont, err, resp.StatusCode(), consumed, rs.Status, len(msg)), cas)
+					}
+				}
+			}
+		}
+	}
+	return evals
+}
+
 func TestVerifC09HeadDelim(t *testing.T) {
 	vfOpen(t)
 	rng := vfRand()
@@ -282,6 +421,8 @@ func TestVerifC09HeadDelim(t *testing.T) {
 		}
 		if v.Conts != nil {
 			conts = v.Conts
+			evals += c09Structured(srv, v.SHeads, v.BodyConts, viol)
+			evals += c09Responses(v.RSeqs, v.RConts, viol)
 			return
 		}
 		if conts == nil {
